@@ -123,6 +123,7 @@ def replay(spec):
                 continue
             if isinstance(w2, complex) or not math.isfinite(w2) or not math.isfinite(g2):
                 continue
-            if abs(g2 - w2) > 1e-13 * max(abs(w2), abs(g2)) and abs(g2 - w2) > 1e-9 * abs(w2) * 0 + 2e-16 * (abs(w2) + sum(abs(x) for x in env2.values() if isinstance(x, float))):
+            scale = abs(w2) + sum(abs(x) for x in env2.values() if isinstance(x, float))          # allows for cancellation between large operands
+            if abs(g2 - w2) > 1e-13 * max(abs(w2), abs(g2)) and abs(g2 - w2) > 2e-16 * scale:
                 return {"reproduced": True, "observed": "%r at the point shifted by %s" % (g2, shift), "expected": w2}
     return {"reproduced": bool(bad), "observed": got, "expected": want}
